@@ -661,6 +661,15 @@ class Producer(object):
                 failure = result
                 result = failure.value.args[0]
                 failed_payloads = failure.value.args[1]
+                if self.req_acks == PRODUCER_ACK_NOT_REQUIRED:
+                    # No responses will come for the payloads which were sent,
+                    # so complete those now: only the failed ones are retried,
+                    # and if the retries run out nothing else would ever fire
+                    # the deferreds of the ones that made it.
+                    failed_tps = [(p.topic, p.partition) for p, f in failed_payloads]
+                    for t_and_p, d_list in deferredsByTopicPart.items():
+                        if (t_and_p.topic, t_and_p.partition) not in failed_tps:
+                            _deliver_result(d_list, None)
 
         # Do we have results? Iterate over them and if the response indicates
         # success, then callback the associated deferred. If the response
